@@ -108,7 +108,7 @@ func VerifC08_NewBatch() { svNewBatch(false) }
 func svNewBatch(checkCharge bool) {
 	verifExpect("issued", "not-issued")
 	e := newSvEnv()
-	one, w := big.NewInt(1), verifPow2(40)
+	one, w := big.NewInt(1), verifAmt(40)
 	e18 := verifPow10(18)
 	two := verifChoice("providers", 2) == 1
 	hasDiscount := verifChoice("discount", 2) == 1
@@ -145,7 +145,7 @@ func svNewBatch(checkCharge bool) {
 	rc0.RepeatedTotal = -1
 	e.k.SetRequestContext(e.ctx, e.ctxID, rc0)
 	e.k.AddNewRequestBatch(e.ctx, e.ctxID, svHeight)
-	e.bank.fund(e.consumer, svDenom, verifIntIn("wallet", big.NewInt(0), verifPow2(42)))
+	e.bank.fund(e.consumer, svDenom, verifIntIn("wallet", big.NewInt(0), verifAmt(42)))
 	c0, r0 := e.bal(e.consumer), e.reqEscrow()
 	panicked, what := verifCatch(func() { EndBlocker(e.ctx, e.k) })
 	if panicked {
@@ -201,7 +201,7 @@ func svNewBatch(checkCharge bool) {
 func VerifC08_BatchExpiry() {
 	verifExpect("expired")
 	e := newSvEnv()
-	one, w := big.NewInt(1), verifPow2(40)
+	one, w := big.NewInt(1), verifAmt(40)
 	dep1, dep2 := verifIntIn("deposit1", one, w), verifIntIn("deposit2", one, w)
 	// a binding may have been disabled (by its owner or by an earlier slash) after the requests were issued
 	e.bind(e.p1, sdkmath.NewInt(10), dep1, sdkmath.LegacyDec{}, 5, verifBool("available1"))
@@ -298,7 +298,7 @@ func VerifC08_BatchExpiry() {
 func VerifC08_Respond() {
 	verifExpect("accepted", "rejected")
 	e := newSvEnv()
-	one, w := big.NewInt(1), verifPow2(40)
+	one, w := big.NewInt(1), verifAmt(40)
 	e.bind(e.p1, sdkmath.NewInt(10), verifIntIn("deposit1", one, w), sdkmath.LegacyDec{}, 5, true)
 	e.bind(e.p2, sdkmath.NewInt(10), verifIntIn("deposit2", one, w), sdkmath.LegacyDec{}, 5, true)
 	rc := e.context([]sdk.AccAddress{e.p1, e.p2}, sdkmath.NewInt(1000), 1, types.RUNNING, verifChoice("repeated", 2) == 1)
